@@ -14,7 +14,7 @@ ENV = dict(os.environ, GOFLAGS="-mod=mod", GOPROXY="off", GOSUMDB="off", GOTOOLC
 
 def sh(cmd, cwd, timeout=1500):
     try:
-        p = subprocess.run(cmd, shell=True, cwd=cwd, env=ENV, capture_output=True, text=True, timeout=timeout)
+        p = subprocess.run(cmd, shell=True, cwd=cwd, env=ENV, capture_output=True, text=True, errors="replace", timeout=timeout)
         return p.returncode, (p.stdout + p.stderr)
     except subprocess.TimeoutExpired as e:
         return 124, "TIMEOUT " + str(e)
@@ -101,7 +101,7 @@ def main():
             os.makedirs(outdir, exist_ok=True)
             env = dict(ENV, VERIF_REPO=repo, VERIF_OUT=outdir)
             try:
-                p = subprocess.run(["/verif/check", c, a.tier], env=env, capture_output=True, text=True, timeout=3000)
+                p = subprocess.run(["/verif/check", c, a.tier], env=env, capture_output=True, text=True, errors="replace", timeout=3000)
                 out = p.stdout + p.stderr
                 cls = re.findall(r"class=([^:\s]+)", out)
                 first = ""
